@@ -54,6 +54,21 @@ Theo::MacroApplicationResult apply_macros(
     std::vector<Theo::Token> input,
     std::vector<Theo::MacroDefinition> &definitions, unsigned int passes);
 
+#ifdef THEO_IDE_LIBTHEO_VERIF
+/* observation hook for the verification harness: called once per performed
+ * rewrite inside apply_macros; thread_local so it is never shared state */
+struct VerifRewriteEvent {
+  unsigned int pass;
+  const MacroDefinition *definition;
+  int location;
+  int length;
+  std::size_t size_after;
+  const std::vector<Token> *stream_after;
+};
+extern thread_local std::function<void(const VerifRewriteEvent &)>
+    verif_rewrite_hook;
+#endif
+
 /**
  * attempt to back-convert a token sequence into a string;
  */
